@@ -45,6 +45,20 @@ CLAIMED["C09"] = ("model_checking",
     "TLA+ abstract map spec + TLC exhaustive graph; every transition replayed into the real tree under key embeddings; traces validated by TLC against the trace spec",
     "Radix", "5 C09")
 
+CLAIMED["C10"] = ("model_checking",
+    "RadixConc.tla transcribes find / find_or_insert (all three insertion cases) / erase with one action per atomic "
+    "access; TLC explores every interleaving of three writer scripts (case 1 at the root and below an inner node, case 3, "
+    "splits at the root - also at depth 0 - and below it, erase, re-insert) with 2-3 readers and checks NoUninitRead "
+    "(node fields and values, happens-before ghost instantiated with the memory orders extracted from the running "
+    "code), ResultSound, PresentFound and structural sanity. Sampled transitions of those graphs are replayed on the "
+    "real tree under a cooperative scheduler and several digit->nibble embeddings, together with random scripts under "
+    "random schedules; every trace is validated against the algorithm-independent RadixConcTrace.tla.",
+    "bounds: 3 scenarios, <=7 writer calls, <=3 readers x <=2 finds; interleaving semantics + release/acquire "
+    "happens-before; scheduler yields at atomic accesses and API returns only; a slot that held a value is "
+    "re-constructed only after readers of that key have left find (the grace period an RCU user owes)",
+    "TLA+ spec at atomic-access granularity + TLC (all interleavings, negative controls); TLC schedules replayed into the real code; traces validated by TLC against a property-layer trace spec with HB ghost; memory orders extracted from traces parametrise the model",
+    "Radix", "5 C10")
+
 NOT_YET = "check not built yet in this round (see DESIGN.md build order); not claimed until its TLA+ spec and conformance harness exist"
 
 checks, na = [], []
